@@ -92,6 +92,37 @@ CHECKS['C03'] = (
     'independent reader; recordings longer than 8 samples are not covered.',
     'DESIGN.md section 6 C03')
 
+CHECKS['C19'] = (
+    'explicit-state breadth-first search to a fixpoint over the product of the real object and a '
+    'reference model (bfs mode); TLC model checking of tla/Progress.tla with every node of its '
+    'history tree replayed on the real ProgressReporter',
+    'Exhaustive within a finite alphabet, to a fixpoint: 19a explores all 37 051 reachable product '
+    'states of a real EventEmitter (2 events, 3 sender filters, 3 callbacks one of them last=True, 3 '
+    'connect styles, unconnect by callback/sender, reset, silent() nested to depth 2, set_silent, '
+    'emits with 3 senders incl. None, with/without single; registration list <= 3) and checks on each '
+    'of ~7.8e5 transitions the exact call sequence, arguments, sender identity and return value '
+    'against a list reference. 19b explores the product of a real ProgressReporter with the `armed` '
+    'reference for values/maxima 0..3 (0..4) to a fixpoint, so histories of every length over that '
+    'range are covered, and replays all 12 537 nodes of the TLC-enumerated history tree (N=2, depth 4; '
+    'depth 5 thorough) of tla/Progress.tla, whose invariants TLC checks. The suite has five event tests.',
+    'set_silent only outside silent(); resets leaving a zero maximum excluded (statement silent); value '
+    'returned by emit while silenced not compared; TLC trusted for the model side.',
+    'DESIGN.md section 6 C19')
+CHECKS['C20'] = (
+    'stateless exploration of every schedule of server answers of the real download_file under an '
+    'in-process HTTP mock (env mode), plus TLC model checking of tla/Download.tla with every terminal '
+    'model path replayed against the implementation',
+    'Exhaustive enumeration of environment answers: every request the code actually makes is a choice '
+    'point (data URL: good/corrupt/404; checksum URL: constant correct/wrong/missing, or chosen per '
+    'request), for each prior file state (absent/valid/corrupt): 41 constant-mode and 151 per-request '
+    'schedules, each checked against the clauses of the statement. TLC checks five invariants on '
+    'tla/Download.tla (nondeterministic where the statement is silent); each of its terminal paths '
+    'is driven against the real code and the observed (answers consumed, outcome, GET count) must be '
+    'a model path, and conversely every explored schedule must be one. Replay determinism is asserted.',
+    'responses.RequestsMock is the trusted mock; HEAD answers constant; nothing claimed about the file '
+    'after an exception.',
+    'DESIGN.md section 6 C20')
+
 NOT_YET = {}
 
 ALL = ['C%02d' % i for i in range(1, 21)]
